@@ -460,4 +460,141 @@ theorem pureRows_mapE (w : Worker) (c : Content) : ∀ (rows : List (Label × Ro
     | error e => rfl
     | ok p => simp only; cases mapE (specRow (rowPure w c) none) rest <;> rfl
 
+/-! ### a filled directory -/
+
+/-- whatever `fn` is: an input whose key the directory holds yields the stored result -/
+theorem specRow_hit {α β : Type} (fn : α → Except Err β) (st : Store β) (kv : Label × α) (r : β)
+    (h : st.lookup kv.1 = some r) : specRow fn (some st) kv = .ok (kv.1, r) := by
+  simp [specRow, Option.bind, h]
+
+theorem lookup_append_self {β : Type} (s : Store β) (k : Label) (r : β) (h : s.lookup k = none) :
+    (s ++ [(k, r)]).lookup k = some r := by
+  induction s with
+  | nil => simp [List.lookup]
+  | cons e rest ih =>
+    obtain ⟨k0, r0⟩ := e
+    simp only [List.cons_append, List.lookup] at h ⊢
+    cases hk : (k == k0) with
+    | true => rw [hk] at h; cases h
+    | false => rw [hk] at h; simp only; exact ih h
+
+theorem lookup_append_some {β : Type} (s t : Store β) (k : Label) (r : β) (h : s.lookup k = some r) :
+    (s ++ t).lookup k = some r := by
+  induction s with
+  | nil => simp [List.lookup] at h
+  | cons e rest ih =>
+    obtain ⟨k0, r0⟩ := e
+    simp only [List.cons_append, List.lookup] at h ⊢
+    cases hk : (k == k0) with
+    | true => rw [hk] at h; simpa using h
+    | false => rw [hk] at h; simp only; exact ih h
+
+/-- SEQUENTIAL mode fills the directory: after a call that returned, every returned pair can be looked up -/
+theorem seqMap_fills {α β : Type} (fn : α → Except Err β) :
+    ∀ (inputs : List (Label × α)) (st : Store β) (res : List (Label × β)) (st' : Option (Store β)),
+      seqMap fn (some st) inputs = (.ok res, st') →
+      ∃ s', st' = some s' ∧ (∀ k r, st.lookup k = some r → s'.lookup k = some r) ∧
+        (distinctKeys (inputs.map (·.1)) = true → ∀ kr, kr ∈ res → s'.lookup kr.1 = some kr.2) := by
+  intro inputs
+  induction inputs with
+  | nil =>
+    intro st res st' h
+    simp only [seqMap, Prod.mk.injEq, Except.ok.injEq] at h
+    obtain ⟨h1, h2⟩ := h
+    subst h1 h2
+    exact ⟨st, rfl, fun _ _ h => h, fun _ kr hkr => by cases hkr⟩
+  | cons kv rest ih =>
+    intro st res st' h
+    unfold seqMap at h
+    have h1 := loadOrRun_fst fn (some st) kv
+    have hw := loadOrRun_writes_own_key fn (some st) kv
+    -- what the call wrote
+    have hwr : ∀ r, (loadOrRun fn (some st) kv).1 = .ok r →
+        (∃ s1, addFile (some st) (loadOrRun fn (some st) kv).2 = some s1 ∧ s1.lookup kv.1 = some r.2 ∧ r.1 = kv.1 ∧
+          ∀ k r', st.lookup k = some r' → s1.lookup k = some r') := by
+      intro r hr
+      unfold loadOrRun at hr ⊢
+      simp only at hr ⊢
+      cases hl : st.lookup kv.1 with
+      | some r0 =>
+        rw [hl] at hr
+        simp only [Except.ok.injEq] at hr ⊢
+        subst hr
+        exact ⟨st, rfl, hl, rfl, fun _ _ h => h⟩
+      | none =>
+        rw [hl] at hr
+        simp only at hr ⊢
+        cases hf : fn kv.2 with
+        | error e => rw [hf] at hr; simp at hr
+        | ok r1 =>
+          rw [hf] at hr
+          simp only [Except.ok.injEq] at hr ⊢
+          subst hr
+          exact ⟨st ++ [(kv.1, r1)], rfl, lookup_append_self st kv.1 r1 hl, rfl,
+            fun k r' h => lookup_append_some st _ k r' h⟩
+    generalize loadOrRun fn (some st) kv = lr at h h1 hw hwr
+    obtain ⟨x, w⟩ := lr
+    cases x with
+    | error e => simp at h
+    | ok r =>
+      simp only at h hwr
+      obtain ⟨s1, hs1, hl1, hr1, hmono1⟩ := hwr r rfl
+      rw [hs1] at h
+      generalize hsm : seqMap fn (some s1) rest = sm at h
+      obtain ⟨y, st2⟩ := sm
+      cases y with
+      | error e => simp at h
+      | ok rs =>
+        simp only [Prod.mk.injEq, Except.ok.injEq] at h
+        obtain ⟨hres, hst⟩ := h
+        subst hres hst
+        obtain ⟨s', hs', hmono, hall⟩ := ih s1 rs st2 hsm
+        refine ⟨s', hs', fun k r' hk => hmono k r' (hmono1 k r' hk), ?_⟩
+        intro hd kr hkr
+        simp only [List.map_cons] at hd
+        obtain ⟨_, hd'⟩ := distinctKeys_cons _ _ hd
+        cases hkr with
+        | head => rw [hr1]; exact hmono kv.1 r.2 hl1
+        | tail _ hm => exact hall hd' kr hm
+
+theorem mapE_of_pointwise {α β : Type} (f : α → Except Err β) :
+    ∀ (xs : List α) (res : List β), res.length = xs.length →
+      (∀ (i : Nat) (x : α), xs[i]? = some x → ∃ y, res[i]? = some y ∧ f x = .ok y) → mapE f xs = .ok res := by
+  intro xs
+  induction xs with
+  | nil => intro res hl _; cases res with | nil => rfl | cons _ _ => simp at hl
+  | cons x rest ih =>
+    intro res hl hp
+    cases res with
+    | nil => simp at hl
+    | cons y ys =>
+      obtain ⟨y', h1, h2⟩ := hp 0 x (by simp)
+      simp at h1
+      subst h1
+      simp only [mapE, h2]
+      rw [ih ys (by simpa using hl) (fun i x' hi => by
+        obtain ⟨y'', h3, h4⟩ := hp (i + 1) x' (by simpa using hi)
+        exact ⟨y'', by simpa using h3, h4⟩)]
+
+/-- a directory that a sequential call over these inputs has filled answers ANY later call over the same inputs — either
+    mode, any schedule, any function (it is never called) — with the first call's results -/
+theorem warm_cache_loads {α β : Type} (fn fn' : α → Except Err β) (inputs : List (Label × α)) (st : Store β)
+    (res : List (Label × β)) (st' : Option (Store β)) (hd : distinctKeys (inputs.map (·.1)) = true)
+    (h : seqMap fn (some st) inputs = (.ok res, st')) :
+    mapE (specRow fn' st') inputs = .ok res := by
+  obtain ⟨s', hs', _, hall⟩ := seqMap_fills fn inputs st res st' h
+  subst hs'
+  have hspec : mapE (specRow fn (some st)) inputs = .ok res := by
+    rw [← seqMap_spec fn (some st) inputs (some st) hd (fun _ _ => rfl), h]
+  obtain ⟨hlen, hpt⟩ := mapE_getElem _ inputs res hspec
+  apply mapE_of_pointwise _ inputs res hlen
+  intro i kv hi
+  obtain ⟨r, hr1, hr2⟩ := hpt i kv hi
+  refine ⟨r, hr1, ?_⟩
+  have hlab : r.1 = kv.1 := specRow_label fn (some st) kv r hr2
+  have hmem : r ∈ res := List.mem_of_getElem? hr1
+  have := hall hd r hmem
+  rw [hlab] at this
+  rw [specRow_hit fn' s' kv r.2 this, ← hlab]
+
 end Mxl.C09
